@@ -75,6 +75,7 @@ def shards(tier, seed):
             out.insert(0, ('mut', gi, M))
         out.append(('trunc', gi, None))
     out.append(('ctype', None, None))
+    out.append(('thread', None, None))
     jn = 4 if tier == 'quick' else 5
     for a in JS_ALPHA:
         out.append(('json', a, jn))
@@ -91,7 +92,7 @@ def bounds(tier, seed):
             'framing': ['content-length exact/short/long', 'chunked in pieces of 1,2,3,5,7,11,13 bytes', 'chunked encoding cut at every wire offset'], 'buffers': [8, 64, 102400]}
 
 
-FLOORS = {'calls': 20000, 'client_errors': 5000, 'delivered_fields': 100, 'accepted': 1000}
+FLOORS = {'threaded_calls': 500, 'calls': 20000, 'client_errors': 5000, 'delivered_fields': 100, 'accepted': 1000}
 
 
 def make_app(om, M):
@@ -172,13 +173,37 @@ def exc_class(text):
     return t.split(':')[0].split('.')[-1][:40] if t else '?'
 
 
-def run(res, app, seen, body, ctype, acc, framing, boundary, M):
+def in_thread(fn):
+    """run fn() on a fresh worker thread (a threaded server never serves on the thread that imported the framework)"""
+    import threading
+    box = {}
+
+    def target():
+        try:
+            box['r'] = fn()
+        except BaseException as e:   # noqa
+            box['e'] = e
+    t = threading.Thread(target=target, daemon=True)
+    t.start()
+    t.join(10)
+    if t.is_alive():
+        raise core.Hang()
+    if 'e' in box:
+        raise box['e']
+    return box['r']
+
+
+def run(res, app, seen, body, ctype, acc, framing, boundary, M, threaded=False):
     c = res['counters']
-    case = {'body': body, 'ctype': ctype, 'acc': acc, 'framing': framing, 'M': M, 'boundary': boundary}
-    core.track(res, case, 5)
+    case = {'body': body, 'ctype': ctype, 'acc': acc, 'framing': framing, 'M': M, 'boundary': boundary, 'threaded': threaded}
+    core.track(res, case, 5 if not threaded else 15)
     res['states'] += 1
     res['transitions'] += 1
-    call = do_post(app, seen, body, ctype, acc, framing)
+    if threaded:
+        c['threaded_calls'] += 1
+        call = in_thread(lambda: do_post(app, seen, body, ctype, acc, framing))
+    else:
+        call = do_post(app, seen, body, ctype, acc, framing)
     v = judge(call, seen, body, boundary, framing)
     c['calls'] += 1
     if call.code is not None and 400 <= call.code < 500:
@@ -243,6 +268,18 @@ def work(spec):
                     for framing in frs:
                         run(res, app, seen, body, 'multipart/form-data; boundary=BND', acc, framing, b'BND', M)
         core.add_sample(res, {'well_formed_body': good, 'variants': len(bodies)})
+    elif kind == 'thread':
+        # the same kinds of bad bodies, each served on a fresh worker thread
+        good = b''.join(GOOD[1])
+        bodies = [good, good[:40], good[:100], b'--BND\r\nno-colon\r\n\r\nv\r\n--BND--', b'{bad json', b'\xff\xfe', b'a=1&b=2', b'x' * 300]
+        for body in bodies:
+            for ct in ('multipart/form-data; boundary=BND', 'application/json', 'application/x-www-form-urlencoded', 'multipart/form-data'):
+                for acc in ('forms', 'files', 'json', 'params', 'body'):
+                    for framing in ('cl', 'chunked', 'cut7', 'cl-long'):
+                        for M in (8, 64):
+                            app, seen = apps[M]
+                            run(res, app, seen, body, ct, acc, framing, b'BND' if 'BND' in ct else None, M, threaded=True)
+        core.add_sample(res, {'threaded_bodies': len(bodies)})
     elif kind == 'ctype':
         good = b''.join(GOOD[1])
         for ct in CTYPES:
@@ -275,9 +312,12 @@ def work(spec):
 def replay(case):
     om = sut.load()
     app, seen = make_app(om, case['M'])
-    c = do_post(app, seen, case['body'], case['ctype'], case['acc'], case['framing'])
+    if case.get('threaded'):
+        c = in_thread(lambda: do_post(app, seen, case['body'], case['ctype'], case['acc'], case['framing']))
+    else:
+        c = do_post(app, seen, case['body'], case['ctype'], case['acc'], case['framing'])
     v = judge(c, seen, case['body'], case['boundary'], case['framing'])
     if v is None:
         return None
     return (f'POST body {case["body"][:80]!r} ({len(case["body"])} bytes) Content-Type {case["ctype"]!r}, {case["framing"]}, '
-            f'max_memfile_size={case["M"]}, handler reads request.{case["acc"]}: {v[1]}')
+            f'max_memfile_size={case["M"]}, handler reads request.{case["acc"]}{" (served on a fresh worker thread)" if case.get("threaded") else ""}: {v[1]}')
